@@ -12,7 +12,7 @@ from fractions import Fraction
 from decimal import Decimal
 
 from . import source
-from .types import (SMat, TMat, NArr, SList, SDict, SSet, Rec, Opt, CList, FuncRef, ModRef, Unsupported, VerifierError, is_sym,
+from .types import (SDefaultDict, TDefaultDict, SMat, TMat, NArr, SList, SDict, SSet, Rec, Opt, CList, FuncRef, ModRef, Unsupported, VerifierError, is_sym,
                     R, I, B, S, T, TInt, TReal, TBool, TStr, TNode, TObj, TTuple, TVec, TList, TDict, TRec, TOpt,
                     slist_get, slist_set, slist_append, slist_slice, to_slist, norm_index, norm_slice_bound,
                     key_term, key_untuple, key_sort_of)
@@ -77,6 +77,20 @@ class Obligation:
 
     def __repr__(self):
         return f"<{self.oid} {self.kind} {self.status}>"
+
+
+class GraphEdges:
+    """G.edges of an nx.Graph record (only iteration is modelled)"""
+
+    def __init__(self, graph):
+        self.graph = graph
+
+
+class DefaultDictNew:
+    """the value of collections.defaultdict(<factory>) before it is bound to a declared local"""
+
+    def __init__(self, factory):
+        self.factory = factory
 
 
 class BoundMethod:
@@ -522,7 +536,7 @@ class Engine:
 
     PURE_METHODS = {"get", "items", "keys", "values", "copy", "format", "split", "strip", "lstrip", "rstrip", "join", "startswith", "endswith",
                     "index", "count", "reshape", "casefold", "lower", "upper", "replace", "isdigit", "predecessors", "neighbors", "all", "any", "sum",
-                    "info", "debug", "warning", "error"}
+                    "info", "debug", "warning", "error", "degree", "has_edge", "has_node"}
 
     def impure_call(self, call):
         """may this call modify objects reachable from its receiver / arguments?  (used to decide what a loop havocs)
@@ -611,6 +625,8 @@ class Engine:
                     for t in (n.targets if isinstance(n, ast.Assign) else [n.target]):
                         if isinstance(t, (ast.Tuple, ast.List)):
                             whole.update(names_in_target(t))
+                        elif isinstance(t, ast.Name):
+                            whole.add(t.id)         # rebinding a name stores nothing through what it was bound to before
                         else:
                             add(path_of(t))
                 elif isinstance(n, ast.For):
@@ -863,8 +879,12 @@ class Engine:
         if isinstance(it, SymRange):
             i = z3.Int("_r")
             return SList(TInt, z3.If(it.hi > it.lo, it.hi - it.lo, 0), [z3.Lambda([i], i + it.lo)])
+        if isinstance(it, SDefaultDict):
+            raise Unsupported("iteration over a defaultdict (its key set is not modelled)")
         if isinstance(it, SDict):
             return self.dict_keys(it)
+        if isinstance(it, GraphEdges):
+            return self.graph_edges(it.graph)
         if type(it).__name__ == "DictItems":
             keys = self.dict_keys(it.d)
             i = z3.Int("_di")
@@ -891,10 +911,56 @@ class Engine:
         self.last_dict_pos = pos
         return SList(d.k, n, [arr])
 
+    def graph_edges(self, g):
+        """ghost edge sequence of an undirected graph (assumed model of networkx' EdgeView): every listed pair is adjacent, and
+        every adjacent unordered pair is listed exactly once, in one of its two orientations"""
+        adj = g.fields["adj"]
+        tag = f"edges{self.counters.get('edges', 0)}"
+        self.counters["edges"] = self.counters.get("edges", 0) + 1
+        n = z3.Int(f"{tag}.n")
+        ns = TNode.sort
+        ea = z3.Const(f"{tag}.a", z3.ArraySort(z3.IntSort(), ns))
+        eb = z3.Const(f"{tag}.b", z3.ArraySort(z3.IntSort(), ns))
+        pos = z3.Function(f"{tag}.pos", ns, ns, z3.IntSort())
+        i = z3.Int("_ei")
+        x, y = z3.Const("_ex", ns), z3.Const("_ey", ns)
+        has = lambda a, b: z3.Select(adj.dom, key_term(adj.k, (a, b)))      # noqa: E731
+        self.assume(n >= 0)
+        self.assume(z3.ForAll([i], z3.Implies(z3.And(0 <= i, i < n), z3.And(has(ea[i], eb[i]), pos(ea[i], eb[i]) == i))))
+        self.assume(z3.ForAll([x, y], z3.Implies(has(x, y), z3.And(0 <= pos(x, y), pos(x, y) < n, pos(x, y) == pos(y, x),
+                                                                   z3.Or(z3.And(ea[pos(x, y)] == x, eb[pos(x, y)] == y),
+                                                                         z3.And(ea[pos(x, y)] == y, eb[pos(x, y)] == x))))))
+        self.last_edge_pos = pos
+        return SList(TTuple(TNode, TNode), n, [ea, eb])
+
+    def ev_Yield(self, node):
+        """generator under contract: the yielded values in order are the result (the consumer is assumed to exhaust the generator
+        before it looks at anything the generator reads)"""
+        val = self.ev(node.value) if node.value is not None else None
+        env = self.frame.env
+        if "__yield__" not in env:
+            raise Unsupported("yield outside a generator under contract")
+        cur = env["__yield__"]
+        if isinstance(cur, SList):
+            env["__yield__"] = slist_append(cur, val)
+        else:
+            env["__yield__"] = CList(list(cur) + [val])
+        return None
+
     # ---- assignment
     def assign(self, tgt, val):
         if isinstance(tgt, ast.Name):
             self.frame.aliases.pop(tgt.id, None)
+            if isinstance(val, DefaultDictNew):
+                decl = self.contract.locals.get(tgt.id) if len(self.frames) == 1 and self.contract is not None else None
+                if not isinstance(decl, TDefaultDict):
+                    raise Unsupported(f"defaultdict bound to {tgt.id}: declare it in the contract (locals: TDefaultDict)")
+                if val.factory != "list" or not isinstance(decl.v, TList):
+                    raise Unsupported("defaultdict factory other than list")
+                ks = key_sort_of(decl.k)
+                i_ = z3.Int("_dd")
+                comps = [z3.K(ks, z3.IntVal(0))] + [z3.K(ks, z3.Lambda([i_], z3.FreshConst(srt, "dd"))) for srt in decl.v.t.sorts()]
+                val = SDefaultDict(decl.k, decl.v, z3.K(ks, False), comps)
             if len(self.frames) == 1 and self.contract is not None and tgt.id in self.contract.locals and isinstance(val, CList):
                 val = to_slist(val, self.contract.locals[tgt.id].t)
             if len(self.frames) == 1 and self.contract is not None and tgt.id in self.contract.locals and isinstance(val, dict) and not val \
@@ -992,12 +1058,13 @@ class Engine:
         if isinstance(obj, SDict):
             kt = key_term(obj.k, x)
             if rest:
-                self.may_raise("KeyError", b_not(z3.Select(obj.dom, kt)), None, "nested store key")
+                if not isinstance(obj, SDefaultDict):
+                    self.may_raise("KeyError", b_not(z3.Select(obj.dom, kt)), None, "nested store key")
                 inner = self._update(obj.v.unflat([c[kt] for c in obj.comps]), rest, val)
             else:
                 inner = val
             fl = obj.v.flat(inner)
-            return SDict(obj.k, obj.v, z3.Store(obj.dom, kt, True), [z3.Store(c, kt, f) for c, f in zip(obj.comps, fl)])
+            return type(obj)(obj.k, obj.v, z3.Store(obj.dom, kt, True), [z3.Store(c, kt, f) for c, f in zip(obj.comps, fl)])
         if isinstance(obj, CList):
             if isinstance(x, int):
                 i = x + len(obj) if x < 0 else x
@@ -1232,6 +1299,8 @@ class Engine:
         if isinstance(base, Rec):
             if attr in base.fields:
                 return base.fields[attr]
+            if base.cls == "nx.Graph" and attr == "edges":
+                return GraphEdges(base)
             return BoundMethod(self.lvalue(node.value) if node is not None and is_path(node.value) else None, base, attr)
         if isinstance(base, SMat) and attr == "shape":
             return (base.rows, base.ncols)
@@ -1330,6 +1399,9 @@ class Engine:
             i = norm_index(I(idx), base.n)
             self.may_raise("IndexError", b_not(z3.And(i >= 0, i < base.n)), node, "index")
             return slist_get(base, i)
+        if isinstance(base, SDefaultDict):
+            kt = key_term(base.k, idx)
+            return base.v.unflat([c[kt] for c in base.comps])      # total map: absent keys read as the default
         if isinstance(base, SDict):
             kt = key_term(base.k, idx)
             self.may_raise("KeyError", b_not(z3.Select(base.dom, kt)), node, "key")
@@ -1988,6 +2060,8 @@ def type_of(v):
         if not v:
             raise Unsupported("type of empty list literal (declare it in the contract)")
         return TList(type_of(v[0]))
+    if isinstance(v, SDefaultDict):
+        return TDefaultDict(v.k, v.v)
     if isinstance(v, SDict):
         return TDict(v.k, v.v)
     if isinstance(v, Rec):
